@@ -364,9 +364,17 @@ def activate_domain_and_interventions(
         if not children:
             # every child is held fixed by the experiment: the term is the constant one
             return One()
+        # keep the conditioning set: selection nodes only mark the domain, experiment variables move to the subscript
+        parents = tuple(
+            parent
+            for parent in expression.parents
+            if parent not in interventions and not is_transport_node(parent)
+        )
         return PopulationProbability(
             population=domain,
-            distribution=Distribution.safe(children),
+            distribution=Distribution(
+                children=Distribution.safe(children).children, parents=parents
+            ),
         ).intervene(interventions)
     if isinstance(expression, Sum):
         # TODO need full integration test to trso() function that covers this branch
